@@ -95,8 +95,9 @@ TickDoy ==
   /\ UNCHANGED <<m, p0, d0, phase>>
 EndChain == /\ stage = "end" /\ stage' = "idle" /\ phase' = NextPhase(phase) /\ UNCHANGED <<m, p0, d0, f>>
 
-Step == Begin \/ TickSec \/ TickMin \/ TickHour \/ TickDow \/ TickWeek \/ TickDom \/ TickDoy \/ EndChain
-Next == Step /\ steps' = steps + 1
+Cnt == steps' = steps + 1
+Next == \/ (Begin /\ Cnt) \/ (TickSec /\ Cnt) \/ (TickMin /\ Cnt) \/ (TickHour /\ Cnt) \/ (TickDow /\ Cnt) \/ (TickWeek /\ Cnt)
+        \/ (TickDom /\ Cnt) \/ (TickDoy /\ Cnt) \/ (EndChain /\ Cnt)
 
 \* the record the finished computation denotes
 Result == [p0 EXCEPT !.y = f.y, !.a = f.a, !.b = f.b, !.hh = f.hh, !.mi = f.mi, !.ss = f.ss,
